@@ -18,6 +18,12 @@ Re-read from /repo's current sources on every run:
   in memory and reloads a released run, both before the tick is handed on; the reload clears it after `workflow.run`
   (`C13_idle_mark_shape`, model `RowMark`).
 
+* `append_tick` / `get_ticks` of the sqlite and the memory store (how a run's sequence column comes about): the sqlite
+  statement's `COALESCE((SELECT MAX(sequence) FROM ticks WHERE run_id = ?), c) + i` with the run id bound to both
+  placeholders, `get_ticks`' `WHERE run_id = ? ORDER BY sequence`; the memory store's
+  `existing[-1].sequence + i if existing else f`, stored under that sequence at the end of the run's own list
+  (`C13_tick_append_shape`, model `WfModel/TickTable.lean`).
+
 `WfProps/C13.lean` (`C13_source_shape`) pins these to what the model `WfModel/Replay.lean` does.
 """
 from __future__ import annotations
@@ -31,6 +37,7 @@ PERSIST = "packages/llama-agents-server/src/llama_agents/server/_runtime/persist
 LOOP = "packages/llama-index-workflows/src/workflows/runtime/control_loop.py"
 SQLITE_STORE = "packages/llama-agents-server/src/llama_agents/server/_store/sqlite/sqlite_workflow_store.py"
 IDLE = "packages/llama-agents-server/src/llama_agents/server/_runtime/idle_release_runtime.py"
+MEMORY_STORE = "packages/llama-agents-server/src/llama_agents/server/_store/memory_workflow_store.py"
 PAGE_CONST = "_TICK_PAGE_SIZE"
 
 
@@ -125,6 +132,104 @@ def _stream_shape(notes: list[str]) -> dict:
             if yloop is not None and isinstance(yloop.iter, ast.Name) and isinstance(n.test.left, ast.Call) and n.test.left.args \
                     and isinstance(n.test.left.args[0], ast.Name) and n.test.left.args[0].id == yloop.iter.id:
                 res["streamStopsOnShortPage"] = True
+    return res
+
+
+def _append_shape(notes: list[str]) -> dict:
+    """how `append_tick` of the two shipped stores numbers a run's ticks, and how `get_ticks` orders them"""
+    import re
+
+    res = {"sqlAppendCoalesce": 0, "sqlAppendInc": 0, "sqlAppendMaxIsPerRun": False, "sqlGetTicksOrdered": False,
+           "memAppendFirst": 999, "memAppendInc": 0, "memAppendAtEndOfRunList": False, "memGetTicksIsRunList": False}
+    try:
+        stree = ast.parse(open(repo_path(SQLITE_STORE)).read())
+        mtree = ast.parse(open(repo_path(MEMORY_STORE)).read())
+    except (OSError, SyntaxError) as e:
+        notes.append(f"gen/replay: cannot parse the stores: {e!r}")
+        return res
+    fn = _find_def(stree, "append_tick", "SqliteWorkflowStore")
+    if fn is None:
+        notes.append("gen/replay: SqliteWorkflowStore.append_tick not found")
+    else:
+        execs = [c for c in ast.walk(fn) if isinstance(c, ast.Call) and isinstance(c.func, ast.Attribute) and c.func.attr == "execute"]
+        inserts = [c for c in execs if c.args and isinstance(c.args[0], ast.Constant) and isinstance(c.args[0].value, str)
+                   and "INSERT INTO ticks" in c.args[0].value]
+        if len(inserts) != 1 or len(execs) != 1:
+            notes.append("gen/replay: SqliteWorkflowStore.append_tick is not one INSERT statement")
+        else:
+            sql = " ".join(inserts[0].args[0].value.split())
+            m = re.search(r"INSERT INTO ticks \(run_id, sequence, timestamp, tick_data\) VALUES \(\?, "
+                          r"COALESCE\(\(SELECT MAX\(sequence\) FROM ticks WHERE run_id = \?\), (-?\d+)\) \+ (\d+), CURRENT_TIMESTAMP, \?\)$", sql)
+            if m is None:
+                notes.append(f"gen/replay: unexpected INSERT of append_tick: {sql!r}")
+            else:
+                res["sqlAppendCoalesce"] = int(m.group(1))
+                res["sqlAppendInc"] = int(m.group(2))
+                prm = inserts[0].args[1] if len(inserts[0].args) > 1 else None
+                arg0 = fn.args.args[1].arg if len(fn.args.args) > 1 else None
+                res["sqlAppendMaxIsPerRun"] = bool(isinstance(prm, ast.Tuple) and len(prm.elts) == 3 and arg0 is not None
+                                                   and all(isinstance(e, ast.Name) and e.id == arg0 for e in prm.elts[:2]))
+    fn = _find_def(stree, "get_ticks", "SqliteWorkflowStore")
+    if fn is None:
+        notes.append("gen/replay: SqliteWorkflowStore.get_ticks not found")
+    else:
+        sqls = [" ".join(c.value.split()) for c in ast.walk(fn) if isinstance(c, ast.Constant) and isinstance(c.value, str) and "SELECT" in c.value]
+        res["sqlGetTicksOrdered"] = len(sqls) == 1 and sqls[0].endswith("FROM ticks WHERE run_id = ? ORDER BY sequence")
+    fn = _find_def(mtree, "append_tick", "MemoryWorkflowStore")
+    if fn is None:
+        notes.append("gen/replay: MemoryWorkflowStore.append_tick not found")
+    else:
+        rid = fn.args.args[1].arg if len(fn.args.args) > 1 else None
+        lst = None   # the name bound to `self.ticks[run_id]`
+        seq_name = None
+        for n in ast.walk(fn):
+            if isinstance(n, ast.Assign) and len(n.targets) == 1 and isinstance(n.targets[0], ast.Name):
+                v = n.value
+                if isinstance(v, ast.Subscript) and isinstance(v.value, ast.Attribute) and v.value.attr == "ticks" \
+                        and isinstance(v.slice, ast.Name) and v.slice.id == rid:
+                    lst = n.targets[0].id
+                if isinstance(v, ast.IfExp) and lst is not None and isinstance(v.test, ast.Name) and v.test.id == lst \
+                        and isinstance(v.orelse, ast.Constant) and isinstance(v.orelse.value, int) \
+                        and isinstance(v.body, ast.BinOp) and isinstance(v.body.op, ast.Add) \
+                        and isinstance(v.body.right, ast.Constant) and isinstance(v.body.right.value, int) \
+                        and isinstance(v.body.left, ast.Attribute) and v.body.left.attr == "sequence" \
+                        and isinstance(v.body.left.value, ast.Subscript) and isinstance(v.body.left.value.value, ast.Name) \
+                        and v.body.left.value.value.id == lst and isinstance(v.body.left.value.slice, ast.UnaryOp) \
+                        and isinstance(v.body.left.value.slice.op, ast.USub) and isinstance(v.body.left.value.slice.operand, ast.Constant) \
+                        and v.body.left.value.slice.operand.value == 1:
+                    seq_name = n.targets[0].id
+                    res["memAppendFirst"] = int(v.orelse.value)
+                    res["memAppendInc"] = int(v.body.right.value)
+        if seq_name is None:
+            notes.append("gen/replay: MemoryWorkflowStore.append_tick: `next = existing[-1].sequence + i if existing else f` not found")
+        else:
+            stored = None
+            for n in ast.walk(fn):
+                if isinstance(n, ast.Assign) and len(n.targets) == 1 and isinstance(n.targets[0], ast.Name) and _call_name(n.value) == "StoredTick":
+                    kws = {k.arg: k.value for k in n.value.keywords}
+                    if isinstance(kws.get("sequence"), ast.Name) and kws["sequence"].id == seq_name \
+                            and isinstance(kws.get("run_id"), ast.Name) and kws["run_id"].id == rid:
+                        stored = n.targets[0].id
+            appends = [c for c in ast.walk(fn) if isinstance(c, ast.Call) and isinstance(c.func, ast.Attribute)
+                       and c.func.attr in ("append", "insert", "extend")]
+            res["memAppendAtEndOfRunList"] = bool(stored is not None and len(appends) == 1 and appends[0].func.attr == "append"
+                                                  and isinstance(appends[0].func.value, ast.Name) and appends[0].func.value.id == lst
+                                                  and len(appends[0].args) == 1 and isinstance(appends[0].args[0], ast.Name)
+                                                  and appends[0].args[0].id == stored)
+    fn = _find_def(mtree, "get_ticks", "MemoryWorkflowStore")
+    if fn is None:
+        notes.append("gen/replay: MemoryWorkflowStore.get_ticks not found")
+    else:
+        rid = fn.args.args[1].arg if len(fn.args.args) > 1 else None
+        rets = [n for n in ast.walk(fn) if isinstance(n, ast.Return)]
+        ok = len(rets) == 1 and _call_name(rets[0].value) == "list" and len(rets[0].value.args) == 1
+        if ok:
+            a = rets[0].value.args[0]
+            ok = isinstance(a, ast.Call) and isinstance(a.func, ast.Attribute) and a.func.attr == "get" \
+                and isinstance(a.func.value, ast.Attribute) and a.func.value.attr == "ticks" \
+                and len(a.args) == 2 and isinstance(a.args[0], ast.Name) and a.args[0].id == rid \
+                and isinstance(a.args[1], ast.List) and not a.args[1].elts
+        res["memGetTicksIsRunList"] = bool(ok)
     return res
 
 
@@ -283,6 +388,7 @@ def extract(notes: list[str]) -> dict:
                  "validatesBeforeReplay": False}
     res.update(_stream_shape(notes))
     res.update(_idle_mark_shape(notes))
+    res.update(_append_shape(notes))
     try:
         ptree = ast.parse(open(repo_path(PERSIST)).read())
         ltree = ast.parse(open(repo_path(LOOP)).read())
@@ -403,6 +509,20 @@ def generate(notes: list[str]) -> list[str]:
         f"def sendReloadsReleasedRun : Bool := {b(r['sendReloadsReleasedRun'])}",
         "/-- `_ensure_active_run_locked` writes `idle_since=None` after `workflow.run` on its main path -/",
         f"def reloadClearsMark : Bool := {b(r['reloadClearsMark'])}",
+        "/-- `COALESCE((SELECT MAX(sequence) FROM ticks WHERE run_id = ?), c) + i` of the sqlite `append_tick`: `c` -/",
+        f"def sqlAppendCoalesce : Int := {int(r['sqlAppendCoalesce'])}",
+        f"def sqlAppendInc : Int := {int(r['sqlAppendInc'])}",
+        "/-- the one INSERT of `append_tick` binds the run id to the row and to the `MAX(sequence)` sub-select -/",
+        f"def sqlAppendMaxIsPerRun : Bool := {b(r['sqlAppendMaxIsPerRun'])}",
+        "/-- sqlite `get_ticks` is `… WHERE run_id = ? ORDER BY sequence` -/",
+        f"def sqlGetTicksOrdered : Bool := {b(r['sqlGetTicksOrdered'])}",
+        "/-- memory `append_tick`: `existing[-1].sequence + i if existing else f` -/",
+        f"def memAppendFirst : Nat := {int(r['memAppendFirst'])}",
+        f"def memAppendInc : Nat := {int(r['memAppendInc'])}",
+        "/-- … stored under that sequence by the one `existing.append(stored)` on the run's own list -/",
+        f"def memAppendAtEndOfRunList : Bool := {b(r['memAppendAtEndOfRunList'])}",
+        "/-- memory `get_ticks` is `list(self.ticks.get(run_id, []))` -/",
+        f"def memGetTicksIsRunList : Bool := {b(r['memGetTicksIsRunList'])}",
         "",
         "end Engine.GenReplay",
     ]
